@@ -208,6 +208,9 @@ class SchemaRaises(SchemaBase):
     def check_args(self, *, arg_names: List[str], fname: str, args, kwargs) -> None:
         if not SchemaCheckSwitch().is_on():
             return
+        if self.arg_specs is None:
+            # no argument declarations (the constructor's default), nothing to check
+            return
         assert isinstance(fname, str)
         # check positional args (by name)
         seen = set()
